@@ -9,6 +9,7 @@
 //!   cg_b_plus p r even             -> Prime::b_plus
 //!   cg_fb_bplus D size             -> `p:r:bplus(type of D),...` for the factor base the class group code builds
 //!   cg_crel_history maxlarge rels  -> emitted relations + bookkeeping of CRelationSet (paths, stored relations: hook)
+//!   (cg_h, cg_full, cg_poly take an optional last argument 0|1: force the double large prime variation)
 //!   cg_poly D first count target   -> hook: the real sieve, one polynomial at a time, with the relations it produced
 use crate::util::*;
 use std::str::FromStr;
@@ -29,6 +30,15 @@ fn prefs() -> Preferences {
     let mut p = Preferences::default();
     p.verbosity = Verbosity::Silent;
     p
+}
+
+/// `dbl`: "1" forces the double large prime variation (Preferences::use_double = Some(true))
+fn prefs_dbl(dbl: &str) -> Option<Preferences> {
+    let mut p = prefs();
+    if bool_of(dbl)? {
+        p.use_double = Some(true);
+    }
+    Some(p)
 }
 
 fn pool(threads: usize) -> Option<rayon::ThreadPool> {
@@ -78,11 +88,21 @@ fn rel_of(s: &str) -> Option<CRelation> {
 }
 
 pub fn handle(op: &str, a: &[&str]) -> Option<String> {
+    // optional last argument of cg_h / cg_full / cg_poly: force double large primes
+    let dbl_arity = match op { "cg_h" | "cg_full" => 3, "cg_poly" => 5, _ => usize::MAX };
+    if a.len() == dbl_arity {
+        let p = prefs_dbl(a[a.len() - 1])?;
+        return handle_with(op, &a[..a.len() - 1], p);
+    }
+    handle_with(op, a, prefs())
+}
+
+fn handle_with(op: &str, a: &[&str], pf: Preferences) -> Option<String> {
     match (op, a) {
         ("cg_h", [d, threads]) => {
             let d = int_of(d)?;
             let tp = pool(usize_of(threads)?);
-            let g = classgroup::classgroup(&d, &prefs(), tp.as_ref());
+            let g = classgroup::classgroup(&d, &pf, tp.as_ref());
             Some(match g {
                 None => "none".into(),
                 Some(g) => format!("{} {}", g.h, show_inv(&g.invariants)),
@@ -97,7 +117,7 @@ pub fn handle(op: &str, a: &[&str]) -> Option<String> {
                 COUNTER.fetch_add(1, Ordering::SeqCst)
             ));
             let _ = std::fs::remove_dir_all(&dir);
-            let mut p = prefs();
+            let mut p = pf;
             p.outdir = Some(dir.clone());
             let g = classgroup::classgroup(&d, &p, tp.as_ref());
             let read = |name: &str| std::fs::read_to_string(dir.join(name)).unwrap_or_else(|_| "<missing>".into());
@@ -229,7 +249,7 @@ pub fn handle(op: &str, a: &[&str]) -> Option<String> {
             let d = int_of(d)?;
             let t = classgroup::verif_hooks_cls::vh_sieve_polys(
                 &d,
-                &prefs(),
+                &pf,
                 usize_of(first)?,
                 usize_of(count)?,
                 usize_of(target)?,
